@@ -311,3 +311,218 @@ Definition decl_fields_eqb (h : hdecl) (r : option reason) (i d f : option bool)
 Definition cycle_eqb (c : cycle_out) (cause : option (reason * bool)) (inv : list nat) (blk alw : bool) : bool :=
   ocause_eqb (co_cause c) cause && nats_eqb (keys_of (co_invoked c)) inv &&
   Bool.eqb (co_block c) blk && Bool.eqb (co_allow c) alw.
+
+(* ====================================================================================== *)
+(* The closed loop: one object, its operator-side memory, and every processed event       *)
+(* (process_resource_event -> process_resource_causes -> process_changing_cause).         *)
+(* Bodies are abstract here: the essence is a number, the stored last-handled essence an  *)
+(* optional number; the JSON level above supplies deleting/blocked (C05_from_body) and    *)
+(* C04 supplies essence/diff.                                                              *)
+(* ====================================================================================== *)
+
+(* the pass on atoms (no JSON, no errors): [pass_cause] is the cause that survives has_handlers,
+   the stealth prematch and the finalizer passes; (cause, block_deletion added, allow_deletion added) *)
+Definition pass_cause (a : atoms) (hs : list hdecl) : option (reason * bool) * bool * bool :=
+  let cc := match hs with [] => None | _ => Some (detect a) end in
+  let cc := if prematch_any hs then cc else None in
+  let must := match cc with Some _ => requires_finalizer hs | None => false end in
+  let add := must && negb (a_blocked a) && negb (a_deleting a) in
+  let rem := negb must && a_blocked a in
+  (if add || rem then None else cc, add, rem).
+
+Definition cycle_on_atoms (a : atoms) (consistent : bool) (hs : list hdecl) : cycle_out :=
+  match pass_cause a hs with
+  | (None, add, rem) => {| co_cause := None; co_invoked := []; co_block := add; co_allow := rem |}
+  | (Some (r, ini), add, rem) =>
+      if consistent
+      then {| co_cause := Some (r, ini); co_invoked := invoked r ini (a_deleting a) hs; co_block := add; co_allow := rem |}
+      else {| co_cause := None; co_invoked := []; co_block := add; co_allow := rem |}
+  end.
+
+(* server-side object, abstract *)
+Record aobj := {
+  ao_ess : nat;              (* its current essence *)
+  ao_last : option nat;      (* the stored last-handled essence, if any (whatever its content) *)
+  ao_deleting : bool;        (* metadata.deletionTimestamp set *)
+  ao_own : bool;             (* the framework's finalizer is in metadata.finalizers *)
+  ao_foreign : bool          (* some other finalizer is *)
+}.
+
+(* inventory.ResourceMemory, the two flags behind `initial` *)
+Record amem := { am_listed : bool (* noticed_by_listing *); am_handled : bool (* fully_handled_once *) }.
+
+Definition onat_eqb (a b : option nat) : bool :=
+  match a, b with Some x, Some y => Nat.eqb x y | None, None => true | _, _ => false end.
+
+Definition is_listing (e : evtype) : bool := match e with EvNone => true | _ => false end.
+
+(* memories.recall(raw_body, noticed_by_listing = raw_type is None): found, or created *)
+Definition recall (m : option amem) (ev : evtype) : amem :=
+  match m with Some x => x | None => {| am_listed := is_listing ev; am_handled := false |} end.
+
+Definition first_sight (m : amem) : bool := am_listed m && negb (am_handled m).
+
+(* the atoms as _detect_causes computes them from the event's object and the memory *)
+Definition atoms_of_snap (ev : evtype) (s : aobj) (m : amem) : atoms :=
+  {| a_gone := is_deleted_event ev; a_deleting := ao_deleting s; a_blocked := ao_own s;
+     a_old_none := match ao_last s with None => true | Some _ => false end;
+     a_diff_empty := onat_eqb (ao_last s) (Some (ao_ess s));
+     a_initial := first_sight m |}.
+
+(* what one pass does besides choosing handlers (process_changing_cause + the tail of
+   process_resource_causes).  Oracles: [done] = state.done after the invoked handlers' outcomes,
+   [nodelays] = no handler asked for a delay, [ran] = keys of the selected handlers actually
+   executed this time (execute_handlers_once skips finished/sleeping ones: C02). *)
+Record pass_fx := {
+  fx_cause : option (reason * bool);   (* cause handled by process_changing_cause *)
+  fx_ran : list hdecl;                 (* handlers invoked *)
+  fx_store : bool;                     (* diffbase_storage.store(essence = cause.new) *)
+  fx_handled : bool;                   (* memory.fully_handled_once = True *)
+  fx_block : bool;                     (* patch.fns += block_deletion *)
+  fx_allow : bool                      (* patch.fns += allow_deletion (early removal or final release) *)
+}.
+
+Definition pass_effects (a : atoms) (consistent done nodelays : bool) (ran : list nat) (hs : list hdecl) : pass_fx :=
+  let release_if (delays_empty : bool) := negb (a_gone a) && a_deleting a && a_blocked a && delays_empty in
+  match pass_cause a hs with
+  | (None, add, rem) =>
+      {| fx_cause := None; fx_ran := []; fx_store := false; fx_handled := false; fx_block := add;
+         fx_allow := rem || release_if true |}
+  | (Some (r, ini), add, rem) =>
+      if negb consistent then                 (* consistency required and not achieved: return before anything *)
+        {| fx_cause := None; fx_ran := []; fx_store := false; fx_handled := false; fx_block := add; fx_allow := rem |}
+      else if is_handler_reason r then
+        let sel := invoked r ini (a_deleting a) hs in
+        let fin := match sel with [] => true | _ => done end in                (* `done or skip` *)
+        let delays_empty := match sel with [] => true | _ => nodelays end in
+        {| fx_cause := Some (r, ini);
+           fx_ran := filter (fun h => existsb (Nat.eqb (h_key h)) ran) sel;
+           fx_store := fin && negb (a_diff_empty a);                           (* cause.old != cause.new *)
+           fx_handled := fin;
+           fx_block := add; fx_allow := rem || release_if delays_empty |}
+      else
+        {| fx_cause := Some (r, ini); fx_ran := []; fx_store := false; fx_handled := false; fx_block := add;
+           fx_allow := rem || release_if true |}
+  end.
+
+Record invocation := {
+  iv_h : hdecl; iv_reason : reason; iv_initial : bool;     (* the handler and the cause it was given *)
+  iv_ev : evtype; iv_snap : aobj; iv_mem : amem            (* the event, its object, the memory at that moment *)
+}.
+
+Record world := { w_obj : option aobj; w_mem : option amem; w_log : list invocation }.
+
+(* the API server's side of a finalizer change: an object marked for deletion without finalizers goes away *)
+Definition settle (o : aobj) : option aobj :=
+  if ao_deleting o && negb (ao_own o) && negb (ao_foreign o) then None else Some o.
+
+(* merge-patch + patch.fns applied to the CURRENT server-side object *)
+Definition apply_fx (o snap : aobj) (fx : pass_fx) : aobj :=
+  {| ao_ess := ao_ess o;
+     ao_last := if fx_store fx then Some (ao_ess snap) else ao_last o;
+     ao_deleting := ao_deleting o;
+     ao_own := if fx_block fx then true else if fx_allow fx then false else ao_own o;
+     ao_foreign := ao_foreign o |}.
+
+Inductive label :=
+| EnvEdit (e : nat)                 (* a user changes an essential field *)
+| EnvDelete                         (* a user requests deletion *)
+| EnvForeign (b : bool)             (* another controller adds/removes its finalizer *)
+| EnvDropStored                     (* somebody strips the stored last-handled state *)
+| Restart                           (* operator process restarts: memories are empty *)
+| Proc (ev : evtype) (snap : aobj)  (* the operator processes an event carrying object [snap] — ANY snapshot, stale or not *)
+       (hs : list hdecl) (consistent done nodelays : bool) (ran : list nat).
+
+Definition set_obj (w : world) (o : option aobj) : world := {| w_obj := o; w_mem := w_mem w; w_log := w_log w |}.
+
+Definition step (w : world) (l : label) : option world :=
+  match l with
+  | EnvEdit e =>
+      match w_obj w with
+      | Some o => Some (set_obj w (Some {| ao_ess := e; ao_last := ao_last o; ao_deleting := ao_deleting o;
+                                           ao_own := ao_own o; ao_foreign := ao_foreign o |}))
+      | None => None
+      end
+  | EnvDelete =>
+      match w_obj w with
+      | Some o => Some (set_obj w (settle {| ao_ess := ao_ess o; ao_last := ao_last o; ao_deleting := true;
+                                             ao_own := ao_own o; ao_foreign := ao_foreign o |}))
+      | None => None
+      end
+  | EnvForeign b =>
+      match w_obj w with
+      | Some o => Some (set_obj w (settle {| ao_ess := ao_ess o; ao_last := ao_last o; ao_deleting := ao_deleting o;
+                                             ao_own := ao_own o; ao_foreign := b |}))
+      | None => None
+      end
+  | EnvDropStored =>
+      match w_obj w with
+      | Some o => Some (set_obj w (Some {| ao_ess := ao_ess o; ao_last := None; ao_deleting := ao_deleting o;
+                                           ao_own := ao_own o; ao_foreign := ao_foreign o |}))
+      | None => None
+      end
+  | Restart => Some {| w_obj := w_obj w; w_mem := None; w_log := w_log w |}
+  | Proc ev snap hs consistent done nodelays ran =>
+      let m := recall (w_mem w) ev in
+      let fx := pass_effects (atoms_of_snap ev snap m) consistent done nodelays ran hs in
+      let m' := {| am_listed := am_listed m; am_handled := am_handled m || fx_handled fx |} in
+      let invs := map (fun h => {| iv_h := h;
+                                   iv_reason := match fx_cause fx with Some (r, _) => r | None => Noop end;
+                                   iv_initial := match fx_cause fx with Some (_, i) => i | None => false end;
+                                   iv_ev := ev; iv_snap := snap; iv_mem := m |}) (fx_ran fx) in
+      Some {| w_obj := if is_deleted_event ev then w_obj w              (* nothing is applied for DELETED *)
+                       else match w_obj w with Some o => settle (apply_fx o snap fx) | None => None end;
+              w_mem := if is_deleted_event ev then None else Some m';   (* memories.forget *)
+              w_log := w_log w ++ invs |}
+  end.
+
+Fixpoint run (w : world) (tr : list label) : option world :=
+  match tr with
+  | [] => Some w
+  | l :: tr' => match step w l with Some w' => run w' tr' | None => None end
+  end.
+
+(* ---- replay of an observed history (T-tie): after every label the observed server-side object,
+   memory and the invocations added must equal the model's ---- *)
+Definition aobj_eqb (a b : aobj) : bool :=
+  Nat.eqb (ao_ess a) (ao_ess b) && onat_eqb (ao_last a) (ao_last b) && Bool.eqb (ao_deleting a) (ao_deleting b) &&
+  Bool.eqb (ao_own a) (ao_own b) && Bool.eqb (ao_foreign a) (ao_foreign b).
+Definition oaobj_eqb (a b : option aobj) : bool :=
+  match a, b with Some x, Some y => aobj_eqb x y | None, None => true | _, _ => false end.
+Definition amem_eqb (a b : amem) : bool := Bool.eqb (am_listed a) (am_listed b) && Bool.eqb (am_handled a) (am_handled b).
+Definition oamem_eqb (a b : option amem) : bool :=
+  match a, b with Some x, Some y => amem_eqb x y | None, None => true | _, _ => false end.
+Fixpoint inv_eqb (l : list invocation) (obs : list (nat * reason)) : bool :=
+  match l, obs with
+  | [], [] => true
+  | iv :: l', (k, r) :: obs' => Nat.eqb (h_key (iv_h iv)) k && reason_eqb (iv_reason iv) r && inv_eqb l' obs'
+  | _, _ => false
+  end.
+
+(* observation after one label: (object, memory, invocations added by this label) *)
+Definition wobs := (option aobj * option amem * list (nat * reason))%type.
+
+Fixpoint replay (w : world) (steps : list (label * wobs)) : bool :=
+  match steps with
+  | [] => true
+  | (l, (o, m, invs)) :: rest =>
+      match step w l with
+      | Some w' =>
+          oaobj_eqb (w_obj w') o && oamem_eqb (w_mem w') m &&
+          inv_eqb (skipn (List.length (w_log w)) (w_log w')) invs && replay w' rest
+      | None => false
+      end
+  end.
+
+(* what the model says after each label (printed as the diagnostic of a rejected history) *)
+Fixpoint observe (w : world) (ls : list label) : list (option wobs) :=
+  match ls with
+  | [] => []
+  | l :: rest =>
+      match step w l with
+      | Some w' => Some (w_obj w', w_mem w',
+                         map (fun iv => (h_key (iv_h iv), iv_reason iv)) (skipn (List.length (w_log w)) (w_log w')))
+                   :: observe w' rest
+      | None => [None]
+      end
+  end.
